@@ -923,7 +923,8 @@ fn class_normal(t: &NormalToken) -> String {
 fn class_str(t: &StringToken) -> String {
     match t {
         StringToken::Error => "Error".into(),
-        StringToken::Literal(_) => "Literal".into(),
+        // (the callback has normalised CR LF to LF: a remaining CR is a lone one)
+        StringToken::Literal(s) => if s.contains('\r') { "LiteralCR".into() } else { "Literal".into() },
         StringToken::DoubleQuote => "DQuote".into(),
         StringToken::Interpolation => "Interp".into(),
         // raw: the char after the backslash; emitted: the char it stands for
@@ -935,7 +936,7 @@ fn class_str(t: &StringToken) -> String {
 fn class_multi(t: &MultiStringToken) -> String {
     match t {
         MultiStringToken::Error => "Error".into(),
-        MultiStringToken::Literal(s) => format!("Literal:{}", s.len()),
+        MultiStringToken::Literal(s) => format!("{}:{}", if s.contains('\r') { "LiteralCR" } else { "Literal" }, s.len()),
         MultiStringToken::CandidateEnd(s) => format!("CandEnd:{}", s.len()),
         MultiStringToken::CandidateInterpolation(s) => format!("CandInterp:{}", s.len()),
         MultiStringToken::QuotesCandidateInterpolation(s) => format!("QCandInterp:{}", s.len()),
